@@ -427,6 +427,7 @@ def main():
     for mesh, spec in (("tetra", ("P", 1, {})), ("tetra", ("RWG", 0, {})), ("tetra", ("SNC", 0, {})), ("tetra", ("P", 1, {"segments": [2], "include_boundary_dofs": True})),
                        ("tetra", ("DP", 0, {"segments": [2]})), ("tetra", ("RWG", 0, {"segments": [2], "include_boundary_dofs": True})),
                        ("tetra", ("SNC", 0, {"segments": [1], "include_boundary_dofs": True, "truncate_at_segment_edge": False})),
+                       ("tetra", ("SNC", 0, {"segments": [2], "include_boundary_dofs": True})), ("tetra", ("P", 1, {"segments": [2]})),
                        ("fan3", ("P", 1, {"segments": [1], "include_boundary_dofs": True, "truncate_at_segment_edge": False}))):
         run.add("barycentric-representation[%s %s%d%s]" % (mesh, spec[0], spec[1], sorted(spec[2].items())), "post", ob_representation, mesh, spec)
     for mesh in ["tetra", "fan3", "octa", "screen2"] + (["cube12", "screen3"] if thorough else []):
@@ -437,6 +438,8 @@ def main():
             run.add("mixed-mass[%s %s]" % (gridname, name), "bounded", ob_mixed, gridname, name, primal, dual, None)
     run.add("mixed-mass[octa P1 x DUAL0 segments]", "bounded", ob_mixed, "octa", "P1 x DUAL0", ("P", 1, {}), ("DUAL", 0, {}), (2,))
     run.add("mixed-mass[octa DP0 x DUAL1 segments]", "bounded", ob_mixed, "octa", "DP0 x DUAL1", ("DP", 0, {}), ("DUAL", 1, {}), (2,))
+    run.add("mixed-mass[octa SNC x BC segments]", "bounded", ob_mixed, "octa", "SNC x BC", ("SNC", 0, {}), ("BC", 0, {}), (2,))
+    run.add("mixed-mass[octa RWG x RBC segments]", "bounded", ob_mixed, "octa", "RWG x RBC", ("RWG", 0, {}), ("RBC", 0, {}), (2,))
     run.bound("representation: topologies %s, symbolic geometry / coefficients / point" % meshes)
     run.bound("dual nodal tables: zoo grids x (all supports when <= 10 (thorough 40), else a fixed random sample) x option combinations")
     run.bound("mixed mass matrices: octahedron, tetrahedron (thorough: cube), regular order 4 (exact for the piecewise polynomial integrands by C12)")
